@@ -19,15 +19,19 @@ Hypothesis R_trans : forall a b c, R a b -> R b c -> R a c.
 Hypothesis R_bin : forall k a a' b b', R a a' -> R b b' -> R (binf C k a b) (binf C k a' b').
 Hypothesis R_un : forall k a a', R a a' -> R (unf C k a) (unf C k a').
 
-Variable nodes0 : list (fnode D).      (* the nodes the schedule was computed from *)
 Variable ops : list fop.
 Hypothesis flagged_assoc : forall o, In o ops -> fcomm o = true ->
   forall a b c, R (binf C (fidx o) (binf C (fidx o) a b) c) (binf C (fidx o) a (binf C (fidx o) b c)).
 
 Definition dummy_op : fop := {| fprio := 0; fidx := 0; fcomm := false; fun_ := [] |}.
 Definition opsf (i : nat) : fop := nth i ops dummy_op.
-Local Notation keyb := (BumpInst.keyb nodes0 ops).
 Local Notation key0 := (BumpInst.key0 ops).
+(* the keys of the schedule: raw priority times ten, plus five for some operators whose regrouping is invisible
+   (the flat keys of prioritized_indices_flat, the deep keys of prioritized_indices) *)
+Variable keyb : nat -> Z.
+Hypothesis kb_cases : forall i, keyb i = key0 i \/ keyb i = (key0 i + 5)%Z.
+Hypothesis kb_ok : forall i, keyb i = (key0 i + 5)%Z -> forall j, j < i -> (key0 j <= key0 i)%Z ->
+  (forall k, j < k < i -> (key0 i < key0 k)%Z) -> (key0 j < key0 i)%Z \/ BumpInst.AP ops j i.
 
 Record cn := { cnode : fnode D; cdecl : bool }.
 Definition mark (a : cn) : cn := {| cnode := cnode a; cdecl := true |}.
@@ -177,7 +181,7 @@ Qed.
 Lemma keyb_le_raw i j : i < length ops -> j < length ops -> (keyb j <= keyb i)%Z -> (fprio (opsf j) <= fprio (opsf i))%Z.
 Proof.
   intros Hi Hj Hle. pose proof (key0_opsf i Hi). pose proof (key0_opsf j Hj).
-  destruct (BumpInst.key_cases nodes0 ops i), (BumpInst.key_cases nodes0 ops j); lia.
+  destruct (kb_cases i), (kb_cases j); lia.
 Qed.
 
 (* ---- the left neighbour of a folded operator ---- *)
@@ -197,20 +201,20 @@ Proof.
   assert (Hkb : (keyb jl < keyb i)%Z).
   { destruct (Hrest jl Hjl) as [H|[_ H]]; lia. }
   destruct (Z.lt_trichotomy (fprio (opsf jl)) (fprio (opsf i))) as [H|[Heq|H]]; [left; exact H| |].
-  2:{ exfalso. destruct (BumpInst.key_cases nodes0 ops i), (BumpInst.key_cases nodes0 ops jl); lia. }
+  2:{ exfalso. destruct (kb_cases i), (kb_cases jl); lia. }
   right. split; [exact Heq|].
-  assert (Hbi : keyb i = (key0 i + 5)%Z) by (destruct (BumpInst.key_cases nodes0 ops i), (BumpInst.key_cases nodes0 ops jl); lia).
+  assert (Hbi : keyb i = (key0 i + 5)%Z) by (destruct (kb_cases i), (kb_cases jl); lia).
   assert (HAP : BumpInst.AP ops jl i).
-  { apply (chain_AP key0 keyb (BumpInst.AP ops) (BumpInst.AP_trans ops) (BumpInst.BumpOK nodes0 ops) (key0 jl) jl eq_refl i Hlt).
+  { apply (chain_AP key0 keyb (BumpInst.AP ops) (BumpInst.AP_trans ops) kb_ok (key0 jl) jl eq_refl i Hlt).
     - lia.
     - intros q Hq. destruct (Nat.eq_dec q i) as [->|Hne]; [lia|].
       assert (Hqd : before keyb q i) by (apply Hdone; apply Hgap; lia).
       assert (Hql : q < length ops) by lia. pose proof (key0_opsf q Hql).
       destruct (BumpInst.key0_10 ops q) as [z Hz].
-      destruct Hqd as [Hk|[Hk _]]; destruct (BumpInst.key_cases nodes0 ops q); lia.
+      destruct Hqd as [Hk|[Hk _]]; destruct (kb_cases q); lia.
     - intros q Hq Hkq. destruct (Nat.eq_dec q i) as [->|Hne]; [lia|].
       assert (Hqd : before keyb q i) by (apply Hdone; apply Hgap; lia).
-      destruct Hqd as [Hk|[Hk _]]; destruct (BumpInst.key_cases nodes0 ops q); lia. }
+      destruct Hqd as [Hk|[Hk _]]; destruct (kb_cases q); lia. }
   destruct HAP as (oj & oi & Ej & Ei & Hf & Huj & Hui & Hc).
   unfold opsf. rewrite (nth_error_nth _ _ dummy_op Ej), (nth_error_nth _ _ dummy_op Ei).
   intros u v w. unfold apply_op. rewrite Huj, Hui. cbn [apply_un fold_right]. rewrite Hf. apply R_sym.
